@@ -172,7 +172,7 @@ func cmdGenCov(args []string) {
 	b.WriteString("//@ func (*RuleExpression).checkExprsIn\n//@   effect scanned[pos] = true\n\n")
 	b.WriteString("//@ func (*String).ContainsExpression\n//@   ensures result == hasexpr(s.Value)\n\n")
 	emit := func(fn, param string, t types.Type, fields []string, extraSkip map[string]bool, special ...string) {
-		fmt.Fprintf(&b, "//@ func %s\n//@   props C03\n//@   anchor\n", fn)
+		fmt.Fprintf(&b, "//@ func %s\n//@   props C03 C12\n//@   anchor\n", fn)
 		if fields == nil {
 			g.nvar = 0
 			g.root = true
